@@ -461,6 +461,12 @@ class SimpleFormula(
         self.__terms.insert(index, value)
         self._reorder()
 
+    def __copy__(self) -> SimpleFormula:
+        # A shallow copy must own its list of terms (as `list.copy()` does);
+        # otherwise mutating the copy also inserts into / deletes from this
+        # formula, without this formula being re-ordered.
+        return self.__class__(self.__terms, _ordering=self.ordering)
+
     def __eq__(self, other: Any) -> bool:
         if isinstance(other, SimpleFormula):
             other = list(other)
